@@ -549,7 +549,7 @@ impl Property for C14 {
         ]
     }
     fn cases(&self, tier: Tier) -> u64 {
-        tier.pick(300_000, 6_000_000)
+        tier.pick(1_200_000, 12_000_000)
     }
     fn strategy(&self, tier: Tier) -> BoxedStrategy<Case> {
         let cfg = HistCfg {
